@@ -45,6 +45,10 @@ PROPS = {
                 assumptions=["R-der (X.690 8.1.2, 8.1.3) transcribed from memory for identifier and length octets; INTEGER contents judged by round trip only"]),
     "C07": dict(FRONTMON, level="exploration", variants={"quick": ["checked"], "thorough": ["checked"]}, shards={"quick": 16, "thorough": 16},
                 assumptions=["the canonical projection P and my own resolver are the specification of 'what was declared'", "only the canonical layout (layout variation is C13)"]),
+    "C08": dict(FRONTMON, level="exploration", variants={"quick": ["checked"], "thorough": ["checked"]}, shards={"quick": 16, "thorough": 16},
+                assumptions=["text level only in this engine; compiled descriptor constants are compared with the schema by the zoo (Extractor shape events)"]),
+    "C12": dict(FRONTMON, level="exploration", variants={"quick": ["checked"], "thorough": ["checked"]}, shards={"quick": 16, "thorough": 16},
+                assumptions=["the literal variant is compared through asn1rs itself (same parser), so recorded C07 deviations do not interfere", "module matching follows the property: by name or by object identifier"]),
     "C13": dict(FRONTMON, level="exploration", variants={"quick": ["checked"], "thorough": ["checked"]}, shards={"quick": 16, "thorough": 16},
                 assumptions=["R-lexer: tokens and (line, column) follow from the lexical items and the chosen separators (X.680 12)", "string literals avoid '--' and '/*' (the tokenizer has no string state)"]),
     "C14": dict(FRONTMON, level="fault_enumeration", variants={"quick": ["checked"], "thorough": ["checked"]}, shards={"quick": 16, "thorough": 16},
@@ -52,6 +56,9 @@ PROPS = {
                              "the sanctioned panic is recognised by message and by the input really having an unterminated block comment"]),
     "C15": dict(FRONTMON, level="exploration", variants={"quick": ["checked"], "thorough": ["checked"]}, shards={"quick": 16, "thorough": 16},
                 assumptions=["R-inttype: unsigned iff lb >= 0, narrowest of the four widths, MIN/MAX/extensible => 64 bit (MIN => signed)"]),
+    "C16": dict(FRONTMON, level="exploration", variants={"quick": ["checked"], "thorough": ["checked"]}, shards={"quick": 16, "thorough": 16},
+                assumptions=["R-tags: X.680 8.6 canonical order, untagged CHOICE ordered by its smallest root tag (X.691 21.1), automatic tagging iff no component of the list is tagged",
+                             "order among extension additions is judged by C02, not here"]),
 }
 
 
